@@ -11,7 +11,7 @@ RULE = ("hyp: sequences of all composition classes up to 60 (quick) / 150 (thoro
         "the 190 unordered residue pairs as two singleton groups on seed-chosen sequences. Oracle: Omega == kappa of the two-letter "
         "recoding == kappa_X(PEDKR) == reference kappa of the recoded pattern; kappa == kappa_X(ED, KR); swap/order/case/container "
         "invariance; one group == its complement; invalid group raises; Omega_sequence is X at P/E/D/K/R and O elsewhere. "
-        "Non-trivial: both recoded classes present and kappa != -1; distinct by (sequence, groups).")
+        "history cases ask 2-5 related groupings (all splits of subsets of a pool of <=5 residues, interleaved with kappa/Omega) of the SAME object and compare each answer with a fresh object. Non-trivial: both recoded classes present and kappa != -1; distinct by (sequence, groups).")
 ASSUMPTIONS = ["overlapping groups are outside the domain (which group wins is undocumented; the swap law is false for them by construction)",
                "reference kappa of a recoded pattern is ref.kappa_from(exact delta, documented-family maximum); KF-1 (kappa>1.1) applies to "
                "recoded sequences as well and does not affect these equalities",
@@ -116,8 +116,27 @@ def check_invalid(ctx, case):
     ctx.check(not ok, "invalid-accepted", "get_kappa_X(%r, %r) with a non-amino-acid member returned %r instead of raising" % (g1, g2, res if ok else None), case)
 
 
+def check_history(ctx, case):
+    """Several related groupings (drawn over a small residue pool) asked of the SAME object, kappa/Omega in between: each answer
+    must equal a fresh object's answer for that grouping."""
+    seq = case["seq"]
+    o = util.spw(seq, case)
+    ctx.count(case, nontrivial=len(case["calls"]) >= 2, classes=["history:%d" % len(case["calls"])])
+    for i, (g1, g2) in enumerate(case["calls"]):
+        if g1 == "kappa":
+            got, want, what = o.get_kappa(), util.sp(seq).get_kappa(), "get_kappa()"
+        elif g1 == "omega":
+            got, want, what = o.get_Omega(), util.sp(seq).get_Omega(), "get_Omega()"
+        else:
+            got = o.get_kappa_X(list(g1), list(g2) if g2 else None)
+            want = util.sp(seq).get_kappa_X(list(g1), list(g2) if g2 else None)
+            what = "get_kappa_X(%s, %s)" % (g1, g2)
+        ctx.check((got == -1) == (want == -1) and ref.close(got, want), "history",
+                  "call %d %s on an object that already answered %r returned %r; a fresh object returns %r" % (i, what, case["calls"][:i], got, want), case)
+
+
 def check(ctx, case):
-    return {"omega": check_omega, "groups": check_groups, "invalid": check_invalid}[case["kind"]](ctx, case)
+    return {"omega": check_omega, "groups": check_groups, "invalid": check_invalid, "history": check_history}[case["kind"]](ctx, case)
 
 
 def styles(n):
@@ -131,9 +150,27 @@ BAD = ["X", "B", "Z", "J", "O", "U", "1", "*", "-", " ", "EK", "", "é", 5, None
 @st.composite
 def hyp_case(draw, max_len):
     seq = draw(gens.sequences(max_len=max_len))
-    kind = draw(st.sampled_from(["omega", "groups", "groups", "groups", "invalid"]))
+    kind = draw(st.sampled_from(["omega", "groups", "groups", "groups", "invalid", "history"]))
     if kind == "omega":
         return {"kind": kind, "seq": seq}
+    if kind == "history":
+        pool = sorted(draw(st.lists(st.sampled_from(sorted(set(seq)) + list("EDKRP")), min_size=2, max_size=5, unique=True)))
+        calls = []
+        for _ in range(draw(st.integers(2, 5))):
+            r = draw(st.integers(0, 9))
+            if r == 0:
+                calls.append(["kappa", None])
+            elif r == 1:
+                calls.append(["omega", None])
+            else:
+                members = draw(st.lists(st.sampled_from(pool), min_size=1, max_size=len(pool), unique=True))
+                members = sorted(members)
+                cut = draw(st.integers(0, len(members)))
+                g1, g2 = members[:cut], members[cut:]
+                if not g1:
+                    g1, g2 = g2, None
+                calls.append([g1, g2 or None])
+        return {"kind": kind, "seq": seq, "calls": calls, "warm": draw(gens.warmups(2))}
     if kind == "invalid":
         good = draw(st.lists(st.sampled_from(list(ref.AA)), max_size=4, unique=True))
         bad = draw(st.sampled_from(BAD))
